@@ -168,6 +168,7 @@ const char *last_pc_function();
 enum { EXIT_ASAN = 77, EXIT_WATCHDOG = 78, EXIT_BUDGET = 79, EXIT_SIGNAL = 80, EXIT_LIBEXIT = 81 };
 void emergency_report(const char *kind, const char *what);  // async-signal-safe-ish: writes one line to the result fd and _exit()s
 extern int g_result_fd;
+void watchdog_rearm();          // restart the per-run CPU watchdog (no-op semantics for the verdict: it can only kill a hung run)
 
 // helpers
 std::string json_escape(const std::string &s);
@@ -187,6 +188,8 @@ struct Engine {
   virtual std::vector<Plan> simplify(const Plan &) { return {}; }
   virtual std::vector<std::string> droppable() const { return {"op"}; }
   virtual bool valid(const Plan &) { return true; }
+  // a plan that stands for a family of executions (per-scenario fault enumeration) is replaced by the one member that failed before shrinking
+  virtual Plan concretise(const Plan &p, const Outcome &) { return p; }
 };
 Engine *make_vfsim();
 Engine *make_pktsim();
